@@ -23,7 +23,7 @@ def main():
         ck.broken.append("Spec/C11Oracle.v / Model/ProtocolCheck.v do not build")
         ck.finish(BASE_TRUST + PROTO_TRUST)
     tmpd = tempfile.mkdtemp(prefix="lsf_c11_")
-    sizes = [("seq", 900 if thorough else 150), ("fanout_ok", 400 if thorough else 70), ("fanout_fail", 400 if thorough else 70), ("fanout_fail_nested", 250 if thorough else 50)]
+    sizes = [("seq", 900 if thorough else 150), ("fanout_ok", 400 if thorough else 70), ("fanout_fail", 400 if thorough else 70), ("fanout_fail_nested", 250 if thorough else 50), ("children", 300 if thorough else 60)]
     infos = ec.run_profiles(rng, tmpd, sizes, thorough)
     for _ in range(120 if thorough else 25):
         info = eg.gen_runs(rng, tmpd, 1, "seq", thorough=thorough, mtype="EXPRESS")[0]
@@ -38,7 +38,7 @@ def main():
     for info in infos:
         if info.status == "exception":
             d = desc(info)
-            ck.violation("an engine callback raised %s: %s" % (info.exception["error"], json.dumps({k: d[k] for k in ("profile", "schedule", "definition", "inputs")})[:1200]), {"case": d})
+            ck.violation("an engine callback raised %s: %s" % (info.exception["error"], json.dumps({k: d[k] for k in ("profile", "schedule", "definition", "child_definition", "inputs") if k in d})[:1200]), {"case": d})
             break
         if info.profile == "seq":
             pc = eg.proto_case(info)
@@ -57,13 +57,18 @@ def main():
     for info in infos:
         for c in ec.c11_cases(info):
             vcases.append(c); vdesc.append(info)
-    r = ck.eval_cases("views", "PyStr Json Cases TraceSpec C02Oracle C11Oracle", "c11_case", vcases, ["c11_views_ok"], per_file=60, timeout=900, prelude=PRE)
+    r = ck.eval_cases("views", "PyStr Json Cases TraceSpec C02Oracle C11Oracle", "c11_case", vcases, ["c11_views_ok", "c11_input_stable"], per_file=60, timeout=900, prelude=PRE)
     if r is not None:
         for i in r["c11_views_ok"][:3]:
             d = desc(vdesc[i])
             d["views"] = vcases[i][:3000]
             ck.violation("record, last notification and history disagree about an execution after some step (status, input, output or error): %s"
-                         % json.dumps({k: d[k] for k in ("profile", "schedule", "definition", "inputs")})[:1500], {"case": d, "monitor": "c11_views_ok"})
+                         % json.dumps({k: d[k] for k in ("profile", "schedule", "definition", "child_definition", "inputs") if k in d})[:1500], {"case": d, "monitor": "c11_views_ok"})
+        for i in r["c11_input_stable"][:3]:
+            d = desc(vdesc[i])
+            d["views"] = vcases[i][:3000]
+            ck.violation("the notifications of one execution do not all report the same input (or one reports none): %s"
+                         % json.dumps({k: d[k] for k in ("profile", "schedule", "definition", "child_definition", "inputs", "type") if k in d})[:1500], {"case": d, "monitor": "c11_input_stable"})
     ck.add_group("views_after_every_step", len(vcases), sum(1 for c in vcases if c.count("(Some Running)") and (c.count("Succeeded") or c.count("Failed"))), [desc(infos[0])],
                  express=sum(1 for i in vdesc if i.profile == "express"))
 
@@ -100,7 +105,7 @@ def main():
         for f, idx in r.items():
             for i in idx[:3]:
                 d = desc(infos[i])
-                ck.violation("a status change was published more than once or out of order: %s" % json.dumps({k: d[k] for k in ("profile", "schedule", "definition", "inputs")})[:1500], {"case": d})
+                ck.violation("a status change was published more than once or out of order: %s" % json.dumps({k: d[k] for k in ("profile", "schedule", "definition", "child_definition", "inputs") if k in d})[:1500], {"case": d})
     ck.add_group("published_once", len(tcases), len(tcases), [])
     ck.cov["rule"] = ("the campaign of C02 (sequential incl. task timeouts / fan-out / failing fan-out / nested, 1-3 concurrent executions, canonical and random schedules) plus EXPRESS runs; "
                       "record, last notification and history compared after every step; every published notification checked; non-trivial = executions seen RUNNING and terminal")
